@@ -81,10 +81,15 @@ type probe struct {
 	actions map[string]func()
 	inside  int
 	maxIn   int
+	quiet   bool // burst rounds: thousands of requests whose events are not recorded (only the pool's bookkeeping is of interest)
 }
 
 func (p *probe) rec(kind string, req int64, rule string) {
 	p.mu.Lock()
+	if p.quiet {
+		p.mu.Unlock()
+		return
+	}
 	p.events = append(p.events, pEvent{Seq: len(p.events), Kind: kind, Req: req, Rule: rule})
 	p.mu.Unlock()
 }
@@ -94,7 +99,9 @@ func (p *probe) Enter(req int64, rule string) {
 	if p.inside > p.maxIn {
 		p.maxIn = p.inside
 	}
-	p.events = append(p.events, pEvent{Seq: len(p.events), Kind: "enter", Req: req, Rule: rule})
+	if !p.quiet {
+		p.events = append(p.events, pEvent{Seq: len(p.events), Kind: "enter", Req: req, Rule: rule})
+	}
 	p.mu.Unlock()
 }
 func (p *probe) Mid(req int64, rule string) {
@@ -104,7 +111,9 @@ func (p *probe) Mid(req int64, rule string) {
 func (p *probe) Exit(req int64, rule string) {
 	p.mu.Lock()
 	p.inside--
-	p.events = append(p.events, pEvent{Seq: len(p.events), Kind: "exit", Req: req, Rule: rule})
+	if !p.quiet {
+		p.events = append(p.events, pEvent{Seq: len(p.events), Kind: "exit", Req: req, Rule: rule})
+	}
 	p.mu.Unlock()
 }
 func (p *probe) Hold(req int64, rule string) {
@@ -568,6 +577,59 @@ func runPoolScenario(sc *pScenario) pObs {
 				case <-time.After(time.Duration(3000+st.WaitMs) * time.Millisecond):
 				}
 			}
+		case "burst":
+			// st.N rounds; in each, st.M requests are started, every one is held inside its first rule until ALL of them are there,
+			// then all gates open at once: the requests finish — and hand their instances back — at the same instant.  Nothing is
+			// recorded; the snapshot that follows shows whether every instance came back.
+			pr.mu.Lock()
+			pr.quiet = true
+			pr.mu.Unlock()
+			base := st.ID
+			for round := 0; round < st.N && len(obs.Stuck) == 0; round++ {
+				var wg sync.WaitGroup
+				keys := make([]string, st.M)
+				for j := 0; j < st.M; j++ {
+					id := base + int64(round*st.M+j)
+					k := fmt.Sprintf("%d/*", id)
+					keys[j] = k
+					pr.mu.Lock()
+					pr.holds[k] = make(chan struct{})
+					pr.reached[k] = make(chan struct{})
+					pr.mu.Unlock()
+					wg.Add(1)
+					go func(id int64) {
+						defer wg.Done()
+						defer func() { _ = recover() }()
+						gp.Execute(map[string]interface{}{"Req": &ReqObj{Id: id, Flag: true}}, true)
+					}(id)
+				}
+				ok := true
+				for _, k := range keys {
+					pr.mu.Lock()
+					rch := pr.reached[k]
+					pr.mu.Unlock()
+					select {
+					case <-rch:
+					case <-time.After(5 * time.Second):
+						ok = false // fewer than st.M requests can be inside a rule together: an instance is missing
+					}
+				}
+				pr.mu.Lock()
+				for _, k := range keys {
+					close(pr.holds[k])
+					delete(pr.holds, k)
+					delete(pr.reached, k)
+					delete(pr.closed, k)
+				}
+				pr.mu.Unlock()
+				wg.Wait()
+				if !ok {
+					obs.Stuck = append(obs.Stuck, base+int64(round))
+				}
+			}
+			pr.mu.Lock()
+			pr.quiet = false
+			pr.mu.Unlock()
 		case "release", "wait":
 			lmu.Lock()
 			lv := lives[st.ID]
